@@ -1,3 +1,4 @@
 import TinyFlux.Audit.Tool
 import TinyFlux.Props.C04
+import TinyFlux.Props.C04EndToEnd
 #audit TinyFlux.Props.C04
